@@ -224,8 +224,9 @@ class B(object):
             c = 'for %s in %s' % (tgt, it)
             if self.chance(35) and self.room():
                 self.dec()
-                cond = self.expr(dict(inner, extra_reads=extra + vars_), depth + 1, forbid)
                 wn = self.pick(POOL)
+                cond = self.expr(dict(inner, extra_reads=extra + vars_, bound=[b for b in ctx.get('bound', []) if b != wn]),
+                                 depth + 1, tuple(forbid) + (wn,))
                 if (self.profile == 'c01' and self.chance(30) and not ctx.get('in_class_direct') and not ctx.get('no_walrus') and wn not in vars_
                         and wn not in COMP_VARS and wn not in forbid and kind != 'gen'):
                     cond = '(%s := %s)' % (wn, cond)
